@@ -106,10 +106,12 @@ namespace sqf::parser::config
         {
             auto it = start;
             auto len = ::sqf::runtime::util::strlen(against);
-            for (size_t i = 0; i < len && it < m_end; i++, ++it)
+            size_t i = 0;
+            for (; i < len && it < m_end; i++, ++it)
             {
                 if ((char)std::tolower(*it) != against[i]) { return 0; }
             }
+            if (i < len) { return 0; }
             if (it < m_end && ((char)std::tolower(*it) >= 'a' && (char)std::tolower(*it) <= 'z'))
             {
                 return 0;
@@ -132,12 +134,16 @@ namespace sqf::parser::config
                     // Check if line comment start
                     if (len_ident_match(iter, "#line"))
                     {
-                        iter += 6;
+                        iter += 5;
+                        if (iter != m_end) { ++iter; }
 
                         // Read in line num
                         auto start = iter;
                         for (; iter != m_end && *iter != '\n' && *iter != ' '; iter++);
                         std::string str_tmp(start, iter);
+                        bool is_number = !str_tmp.empty() && str_tmp.length() <= 18;
+                        for (char c : str_tmp) { if (c < '0' || c > '9') { is_number = false; } }
+                        if (!is_number) { break; } // not a #line directive
                         m_line = static_cast<size_t>(std::stoul(str_tmp));
 
                         // Try skip to file
@@ -162,7 +168,7 @@ namespace sqf::parser::config
                     if (is_match_repeated<2, '/'>(iter))
                     {
                         // find line comment end
-                        while (!is_match<'\n'>(++iter));
+                        while (++iter < m_end && !is_match<'\n'>(iter));
 
                         // update position info
                         m_line++;
@@ -179,7 +185,7 @@ namespace sqf::parser::config
                         ++iter;
                         ++iter;
                         // find block comment end
-                        while (!(is_match<'*'>(iter) && is_match<'/'>(iter + 1)))
+                        while (iter < m_end && !(is_match<'*'>(iter) && is_match<'/'>(iter + 1)))
                         {
                             // update position info
                             if (!is_match<'\n'>(iter))
@@ -263,7 +269,14 @@ namespace sqf::parser::config
                             m_line++;
                             m_column = 0;
                         }
-                        ++iter;
+                        if (iter == m_end)
+                        {
+                            break;
+                        }
+                        else
+                        {
+                            ++iter;
+                        }
                     }
                     // set length
                     len = iter - m_current;
